@@ -106,6 +106,7 @@ def nhOf : String → Option NhPlan
   | "v6" => some { pre := some (.known .v6) } | "m6" => some { pre := some (.known .m6) }
   | "ll" => some { pre := some (.known .ll) }
   | "ll2" => some { pre := some (.known .v6), preLl := true }
+  | "llx" => some { pre := some (.known .ll), preLl := true }   -- Ipv6LL(a, old) then set_nexthop_ll_addr: Ipv6LL(a, new)
   | "ll3" => some { preLl := true }
   | "v4ll" => some { pre := some (.known .v4), preLl := true }
   | "m6ll" => some { pre := some (.known .m6), preLl := true }
